@@ -376,7 +376,36 @@ theorem gdl1_example_no_run_beats_bound (f : E → ℝ) (g : E → E) (L γ : Co
     nlinarith
   nlinarith [mul_nonneg hn (mul_nonneg hγpos.le hg2), hd', hc, hLγ, hLγ2]
 
+/-! ## gradient flow of a convex function (continuous_time_models.gradient_flow_convex) -/
+
+theorem gfc_metric_den (v : Nat → E) (φ : Nat → ℝ) (t : Coef) :
+    EDict.den v φ (gfcMetric t) =
+      (φ 1 - φ 0) + ⟪((t : ℚ) : ℝ) • v 2, -(v 2)⟫ + ⟪v 1 - v 0, -(v 2)⟫ := by
+  unfold gfcMetric
+  rw [EDict.den_add v φ _ _ (PDict.wf_ip _ _), EDict.den_add v φ _ _ (PDict.wf_ip _ _),
+    EDict.den_sub v φ _ _ (nodup_singleE _ _), den_ip, den_ip, PDict.den_smul, PDict.den_neg,
+    PDict.den_sub v _ _ (nodup_single 0 1), denE_single, denE_single, denP_single, denP_single, denP_single]
+
+/-- **the Lyapunov function does not increase along the flow, for the script's own metric**: `f` convex with subgradient
+selection `g`, `t ≥ 0`; under every interpretation consistent with `f` the script's metric
+`d/dt [t (f(x_t) − f⋆) + ½‖x_t − x⋆‖²]` is `≤ 0`, the value the example states -/
+theorem gfc_example_no_run_beats_bound (f : E → ℝ) (g : E → E) (t : Coef) (ht : 0 ≤ ((t : ℚ) : ℝ))
+    (hconv : ∀ x y, f y ≥ f x + ⟪g x, y - x⟫)
+    (v : Nat → E) (φ : Nat → ℝ) (hg : v 2 = g (v 1)) (h1 : φ 1 = f (v 1)) (h0 : φ 0 = f (v 0)) :
+    ∀ m ∈ (gfc t).metrics, EDict.den v φ m ≤ 0 := by
+  intro m hm
+  have : m = gfcMetric t := by simpa [gfc] using hm
+  subst this
+  rw [gfc_metric_den, h1, h0, inner_neg_right, inner_neg_right, real_inner_smul_left, real_inner_self_eq_norm_sq]
+  have hc := hconv (v 1) (v 0)
+  rw [← hg] at hc
+  have e : ⟪v 2, v 0 - v 1⟫ = -⟪v 1 - v 0, v 2⟫ := by rw [← neg_sub (v 1) (v 0), inner_neg_right, real_inner_comm]
+  rw [e] at hc
+  nlinarith [mul_nonneg ht (sq_nonneg ‖v 2‖)]
+
 end Pepit.C09M
+
+#print axioms Pepit.C09M.gfc_example_no_run_beats_bound
 
 #print axioms Pepit.C09M.gdl1_example_no_run_beats_bound
 
